@@ -120,6 +120,7 @@ func runC16(c *ctx) {
 			b.suite = o.CBSuite
 		}
 		var updates []interface{}
+		var prevNames []string
 		for u := 0; u < nUpd; u++ {
 			for _, b := range brs {
 				if u == b.registerAt {
@@ -131,10 +132,39 @@ func runC16(c *ctx) {
 			}
 			var anys []*anypb.Any
 			var uj []interface{}
+			// every third update is a REPLACEMENT of the previous one: one of its clusters goes, another one comes, the set
+			// does not shrink (what is dropped has to leave the cache all the same - a later breaker starts from the cache)
+			include := map[string]bool{}
+			lateNext := false
+			for _, b := range brs {
+				if b.registerAt == u+1 {
+					lateNext = true // a breaker is created right after this update: it starts from what the cache holds now
+				}
+			}
+			replacement := u > 0 && len(prevNames) > 0 && len(prevNames) < len(names) && (r.chance(35) || (lateNext && r.chance(70)))
+			if replacement {
+				for _, nm := range prevNames {
+					include[nm] = true
+				}
+				delete(include, prevNames[r.intn(len(prevNames))])
+				for _, nm := range names {
+					if !include[nm] && !contains(prevNames, nm) {
+						include[nm] = true
+						break
+					}
+				}
+				c.count("replacement-updates", 1)
+			}
+			prevNames = prevNames[:0]
 			for _, nm := range names {
-				if !r.chance(65) {
+				if replacement {
+					if !include[nm] {
+						continue
+					}
+				} else if !r.chance(65) {
 					continue
 				}
+				prevNames = append(prevNames, nm)
 				o := gOutlier{Present: r.chance(75)}
 				if o.Present {
 					o.Thr = []int{0, 1, 20, 50, 100}[r.intn(5)]
@@ -653,4 +683,13 @@ func runC18(c *ctx) {
 		c.emit(obj{"op": "limit", "port": port, "nds": nds, "events": events})
 		w.close()
 	}
+}
+
+func contains(xs []string, x string) bool {
+	for _, y := range xs {
+		if y == x {
+			return true
+		}
+	}
+	return false
 }
